@@ -47,6 +47,9 @@ const Z32B: AtomicU32 = AtomicU32::new(0);
 static TRACE: [AtomicU32; TRACE_N] = [Z32B; TRACE_N];
 
 thread_local! {
+    /// time at which the current thread's current operation was first seen AFTER it had registered in the
+    /// wait list (sync: entry of Signal::wait / wait_timeout; async: first poll returned Pending); 0 = not yet
+    static REG_T: Cell<u64> = const { Cell::new(0) };
     static ROLE: Cell<u32> = const { Cell::new(0) };
     static TRNG: RefCell<Option<Rng>> = const { RefCell::new(None) };
     static TCOUNT: Cell<u64> = const { Cell::new(0) };
@@ -86,7 +89,29 @@ pub fn trace_signature() -> u64 {
     h
 }
 
+pub fn reg_reset() {
+    REG_T.with(|c| c.set(0));
+}
+pub fn reg_mark() {
+    REG_T.with(|c| {
+        if c.get() == 0 {
+            c.set(crate::payload::now());
+        }
+    });
+}
+pub fn reg_take() -> Option<u64> {
+    let v = REG_T.with(|c| c.replace(0));
+    if v == 0 {
+        None
+    } else {
+        Some(v)
+    }
+}
+
 fn hook(id: u32) {
+    if id == kv::WAIT_ENTER || id == kv::WAIT_TIMEOUT_ENTER {
+        reg_mark();
+    }
     let role = ROLE.with(|c| c.get());
     let i = TRACE_IDX.fetch_add(1, Relaxed) as usize;
     if i < TRACE_N {
